@@ -181,7 +181,19 @@ def move_staticmethod_static_scope(source: str, preserve: Collection[str]) -> st
             # a call, an element of a collection, ...
             attributes_to_preserve.add(node.attr)
 
-    static_names = {funcdef.name for funcdef in parsing.iter_funcdefs(root)} | preserve
+    # The new function must not take a name that anything else in the file binds.
+    static_names = (
+        {node.name for node in parsing.iter_funcdefs(root)}
+        | {node.name for node in parsing.iter_classdefs(root)}
+        | {node.id for node in core.walk(root, ast.Name(ctx=ast.Store))}
+        | {node.arg for node in core.walk(root, ast.arg)}
+        | {
+            (alias.asname or alias.name).split(".")[0]
+            for node in core.walk(root, (ast.Import, ast.ImportFrom))
+            for alias in node.names
+        }
+        | set(preserve)
+    )
     name_replacements = {}
 
     replacements = {}
@@ -200,6 +212,8 @@ def move_staticmethod_static_scope(source: str, preserve: Collection[str]) -> st
                 continue
             if any((name, funcdef.name) in class_function_names for name in subclasses[classdef.name]):
                 continue
+            if funcdef.name.startswith("__"):
+                continue  # the name is mangled wherever it is written in a class
             new_name = funcdef.name
             if not parsing.is_private(new_name):
                 new_name = f"_{new_name}"
